@@ -338,7 +338,12 @@ def r_stack_dual(cx):
                     if f.dominates(succ, bb):
                         key, tr = _arg_transform(f, bb)
                         arms.setdefault(lit, []).append((callee.split("::")[-1], key, tr))
-            if callee.endswith("<impl [T]>::swap"):
+            is_swap = callee.endswith("<impl [T]>::swap")
+            if not is_swap and callee.startswith("inner_op::stack::") and callee not in PRIMS and cx.f.has_fn(callee):
+                # a private helper that does the swap (shared by both directions)
+                h = cx.f.fn(callee)
+                is_swap = any((h.callee(t2) or "").endswith("<impl [T]>::swap") for _, t2 in h.calls())
+            if is_swap:
                 for (succ, lhs, lit) in tests:
                     if f.dominates(succ, bb):
                         arms.setdefault(lit, []).append(("swap", None, "id"))
@@ -359,8 +364,26 @@ def _outer_domain(f, lp):
     x = pertuple.iterator_entry_value(f, lp)
     if x is None:
         return None
-    if x[0] == "call" and isinstance(x[1], str) and x[1].endswith("into_iter"):
-        x = mir.strip_refs(x[2][0])
+    enumerated = False
+    for _ in range(5):
+        if x[0] == "call" and isinstance(x[1], str) and x[1].rsplit("::", 1)[-1] in ("into_iter", "iter", "enumerate") and x[2]:
+            if x[1].endswith("enumerate"):
+                enumerated = True
+            x = mir.strip_refs(x[2][0])
+            continue
+        if x[0] == "cast":
+            x = mir.strip_refs(x[2])
+            continue
+        break
+    if enumerated:
+        # (index, element) over an array: the indices are 0..len
+        if x[0] == "const" and isinstance(x[2], tuple) and x[2] and x[2][0] == "path" and f.facts is not None:
+            import consts
+            v = consts.const_value(f.facts, x[2][1])
+            return set(range(len(v))) if v is not None else None
+        if x[0] == "agg" and x[1] == "array":
+            return set(range(len(x[2])))
+        return None
     if x[0] == "agg" and x[1] == "array":
         vals = []
         for e in x[2]:
